@@ -162,6 +162,17 @@ where
     }
 }
 
+/// Puts `s` into the caller's buffer after the buffer held - at the same address, with the same byte length - a text of
+/// another structure (single-byte letters) that `touch` looked at: whatever the library remembered about that text must
+/// not be used for `s` (a memo keyed by address and length, a re-used scratch buffer, ...).
+pub fn refill_with(buf: &mut String, s: &str, touch: impl FnOnce(&str)) {
+    buf.clear();
+    buf.push_str(&"x".repeat(s.len()));
+    touch(buf);
+    buf.clear();
+    buf.push_str(s);
+}
+
 /// Interner: equal strings <=> equal ids (ids start at 1).
 #[derive(Default)]
 pub struct Interner {
